@@ -191,11 +191,12 @@ type natKey struct {
 }
 
 type World struct {
-	e       *Env
-	aux     *Env // private environment used to let the real controller mint revisions
-	nat     map[natKey]*kubeapps.ControllerRevision
-	natName map[string]string // real name -> abstract
-	canon   map[int]int       // raw plan position -> position in the canonical call order of the last reconcile
+	e           *Env
+	aux         *Env // private environment used to let the real controller mint revisions
+	nat         map[natKey]*kubeapps.ControllerRevision
+	natName     map[string]string // real name -> abstract
+	canon       map[int]int       // raw plan position -> position in the canonical call order of the last reconcile
+	guardMaxOrd int               // sim: highest ordinal user actions may make desirable
 }
 
 func NewWorld() *World {
@@ -445,12 +446,15 @@ func strOrEmpty(ss []string) []string {
 
 // AbsSet projects the set as the controller's cache shows it.
 func (w *World) AbsSet(name string) []interface{} {
-	o, ok, _ := w.e.setIdx.GetByKey(NS + "/" + name)
-	if !ok {
+	return w.AbsSetObj(w.cachedSet(name), name)
+}
+
+// AbsSetObj projects a StatefulSet object (nil = absent).
+func (w *World) AbsSetObj(s *apps.StatefulSet, name string) []interface{} {
+	if s == nil {
 		return []interface{}{name, false, 0, []int{}, "", "", false, false, 0, "", false, false, 0, true, 0,
 			[]int{0, 0, 0, 0, 0, 0}, []string{"", ""}, []string{}}
 	}
-	s := o.(*apps.StatefulSet)
 	_, selErr := metav1.LabelSelectorAsSelector(s.Spec.Selector)
 	ru := s.Spec.UpdateStrategy.RollingUpdate
 	part := 0
@@ -519,6 +523,11 @@ func storageOK(set *apps.StatefulSet, p *v1.Pod) bool {
 // AbsPods projects every pod of a store (cache or API) relative to the set.
 func (w *World) AbsPods(set *apps.StatefulSet, pods []*v1.Pod) [][]interface{} {
 	out := [][]interface{}{}
+	// uidOK: the pod object is the same incarnation as the pod of that name in the API
+	apiUID := map[string]string{}
+	for _, n := range w.e.api.Names(RPods) {
+		apiUID[n] = string(w.e.apiPod(n).UID)
+	}
 	if set == nil {
 		return out
 	}
@@ -530,7 +539,7 @@ func (w *World) AbsPods(set *apps.StatefulSet, pods []*v1.Pod) [][]interface{} {
 		out = append(out, []interface{}{
 			p.Name, ord, parent == set.Name, match, ownerClass(p, set), string(p.Status.Phase), podReady(p),
 			p.DeletionTimestamp != nil, w.absRevName(set.Name, p.Labels[kubeapps.StatefulSetRevisionLabel]),
-			identityOK(set, p), storageOK(set, p),
+			identityOK(set, p), storageOK(set, p), apiUID[p.Name] == string(p.UID),
 		})
 	}
 	return out
